@@ -1,12 +1,12 @@
 package main
 
 import (
-	"golang.org/x/tools/go/ssa"
 	"fmt"
 	"go/ast"
 	"go/constant"
 	"go/token"
 	"go/types"
+	"golang.org/x/tools/go/ssa"
 	"regexp"
 	"strconv"
 	"strings"
@@ -54,18 +54,19 @@ func (h *Heap) clone() *Heap {
 }
 
 type Env struct {
-	vc       *VC
-	vars     map[string]TV
-	heap     *Heap
-	old      *Heap
-	pkg      *packages.Package
-	tparams  map[string]types.Type
-	depth    int
-	locals   func(e *Env, name string) (TV, bool) // late-bound lookup of program variables (loop invariants, captured variables)
-	facts    *[]Term                      // heap well-formedness facts about values read (hoistable ones only)
-	entry    map[string]TV                // entry values of parameters that were reassigned (visible through old(...))
-	cellPtr  func(name string) (Term, types.Type, bool) // address of a captured variable (frame / guarded targets)
-	fnCtx    *ssa.Function // the function whose contract is being evaluated (callee at call sites); nil = the function under verification
+	vc      *VC
+	vars    map[string]TV
+	heap    *Heap
+	old     *Heap
+	pkg     *packages.Package
+	tparams map[string]types.Type
+	depth   int
+	locals  func(e *Env, name string) (TV, bool)       // late-bound lookup of program variables (loop invariants, captured variables)
+	facts   *[]Term                                    // heap well-formedness facts about values read (hoistable ones only)
+	entry   map[string]TV                              // entry values of parameters that were reassigned (visible through old(...))
+	cellPtr func(name string) (Term, types.Type, bool) // address of a captured variable (frame / guarded targets)
+	qfacts  *[]Term                                    // inside a quantifier: allocatedness facts about reads that depend on the bound variable
+	fnCtx   *ssa.Function                              // the function whose contract is being evaluated (callee at call sites); nil = the function under verification
 }
 
 func (e *Env) child() *Env {
@@ -583,7 +584,7 @@ func (e *Env) selectField(base TV, name string, n ast.Node) TV {
 				if b.IndexVar != "" {
 					e.fail(n, "model field %s is bound pointwise: use %s[i]", name, name)
 				}
-				be := &Env{vc: vc, pkg: b.Pkg, vars: map[string]TV{b.RecvName: base}, heap: e.heap, old: e.old, tparams: e.typeArgEnv(named), facts: e.facts}
+				be := &Env{vc: vc, pkg: b.Pkg, vars: map[string]TV{b.RecvName: base}, heap: e.heap, old: e.old, tparams: e.typeArgEnv(named), facts: e.facts, qfacts: e.qfacts}
 				be.depth = e.depth
 				return be.tr(b.Expr)
 			}
@@ -603,7 +604,7 @@ func (e *Env) selectField(base TV, name string, n ast.Node) TV {
 					}
 					if b.Iface == okey && b.Field == name && b.IndexVar == "" {
 						ct := e.concreteTypeOf(b)
-						be := &Env{vc: vc, pkg: b.Pkg, vars: map[string]TV{b.RecvName: {T: app("pl", base.T), S: goSType(ct)}}, heap: e.heap, old: e.old, facts: e.facts}
+						be := &Env{vc: vc, pkg: b.Pkg, vars: map[string]TV{b.RecvName: {T: app("pl", base.T), S: goSType(ct)}}, heap: e.heap, old: e.old, facts: e.facts, qfacts: e.qfacts}
 						be.depth = e.depth
 						bt := be.tr(b.Expr)
 						cond := and(not(eq(base.T, "iface_nil")), eq(app("dyn", base.T), intLit(int64(vc.typeID(ct)))))
@@ -674,20 +675,40 @@ var boundVarRe = regexp.MustCompile(`_q\d+|\bpa\d+_|\bd\d+_|\bjk\b|\bjl\b|\bfx\b
 
 // noteAllocated records that a reference read from the heap denotes an allocated object of that heap.
 func (e *Env) noteAllocated(v TV) {
-	if e.facts == nil || v.S.Go == nil || boundVarRe.MatchString(v.T) {
+	if v.S.Go == nil {
 		return
+	}
+	sink := e.facts
+	if boundVarRe.MatchString(v.T) {
+		// a read that depends on a bound variable: the fact becomes a hypothesis of the enclosing quantifier's body
+		// (well-typed heaps: what a reference-typed location holds is an allocated object)
+		sink = e.qfacts
+	}
+	if sink == nil {
+		return
+	}
+	if sink == e.qfacts {
+		// remember the read term: it becomes the trigger of the hoisted quantified fact
+		var tmp []Term
+		real := sink
+		sink = &tmp
+		defer func() {
+			for _, f := range tmp {
+				*real = append(*real, v.T+"\x00"+f)
+			}
+		}()
 	}
 	top := e.vc.hget(e.heap, "top", "Int")
 	switch v.S.Sort {
 	case "Int":
 		if isRefLike(v.S.Go) {
-			*e.facts = append(*e.facts, app("<=", v.T, top), app(">=", v.T, "0"))
+			*sink = append(*sink, app("<=", v.T, top), app(">=", v.T, "0"))
 		}
 	case "Slice":
-		*e.facts = append(*e.facts, app("<=", app("sid", v.T), top), app(">=", app("sid", v.T), "0"), app(">=", app("slen", v.T), "0"), app(">=", app("soff", v.T), "0"),
+		*sink = append(*sink, app("<=", app("sid", v.T), top), app(">=", app("sid", v.T), "0"), app(">=", app("slen", v.T), "0"), app(">=", app("soff", v.T), "0"),
 			implies(eq(app("sid", v.T), "0"), eq(app("slen", v.T), "0")))
 	case "Iface":
-		*e.facts = append(*e.facts, implies(not(eq(v.T, "iface_nil")), app("<=", app("pl", v.T), top)))
+		*sink = append(*sink, implies(not(eq(v.T, "iface_nil")), app("<=", app("pl", v.T), top)))
 	}
 }
 
@@ -792,7 +813,7 @@ func (e *Env) pointwise(x *ast.IndexExpr) (TV, bool) {
 	ck := typeKey(base.S.Go)
 	for _, b := range vc.specs.Bindings {
 		if b.Concrete == ck && b.Field == sel.Sel.Name && b.IndexVar != "" {
-			be := &Env{vc: vc, pkg: b.Pkg, vars: map[string]TV{b.RecvName: base, b.IndexVar: idx}, heap: e.heap, old: e.old, tparams: e.typeArgEnv(named), facts: e.facts, depth: e.depth}
+			be := &Env{vc: vc, pkg: b.Pkg, vars: map[string]TV{b.RecvName: base, b.IndexVar: idx}, heap: e.heap, old: e.old, tparams: e.typeArgEnv(named), facts: e.facts, qfacts: e.qfacts, depth: e.depth}
 			return be.tr(b.Expr), true
 		}
 	}
@@ -806,7 +827,7 @@ func (e *Env) pointwise(x *ast.IndexExpr) (TV, bool) {
 				}
 				if b.Iface == okey && b.Field == sel.Sel.Name && b.IndexVar != "" {
 					ct := e.concreteTypeOf(b)
-					be := &Env{vc: vc, pkg: b.Pkg, vars: map[string]TV{b.RecvName: {T: app("pl", base.T), S: goSType(ct)}, b.IndexVar: idx}, heap: e.heap, old: e.old, depth: e.depth, facts: e.facts}
+					be := &Env{vc: vc, pkg: b.Pkg, vars: map[string]TV{b.RecvName: {T: app("pl", base.T), S: goSType(ct)}, b.IndexVar: idx}, heap: e.heap, old: e.old, depth: e.depth, facts: e.facts, qfacts: e.qfacts}
 					bt := be.tr(b.Expr)
 					cond := and(not(eq(base.T, "iface_nil")), eq(app("dyn", base.T), intLit(int64(vc.typeID(ct)))))
 					out = TV{T: app("ite", cond, bt.T, out.T), S: out.S}
@@ -847,13 +868,13 @@ func (e *Env) trIndex(x *ast.IndexExpr) TV {
 	return TV{}
 }
 
-func elemsArr(es Sort) string  { return "Elems_" + sortID(es) }
-func elemsSort(es Sort) Sort   { return fmt.Sprintf("(Array Int (Array Int %s))", es) }
-func cellArr(s Sort) string    { return "Cell_" + sortID(s) }
+func elemsArr(es Sort) string    { return "Elems_" + sortID(es) }
+func elemsSort(es Sort) Sort     { return fmt.Sprintf("(Array Int (Array Int %s))", es) }
+func cellArr(s Sort) string      { return "Cell_" + sortID(s) }
 func mapDomArr(k, v Sort) string { return "MapDom_" + sortID(k) + "_" + sortID(v) }
 func mapValArr(k, v Sort) string { return "MapVal_" + sortID(k) + "_" + sortID(v) }
-func mapDomSort(k Sort) Sort   { return fmt.Sprintf("(Array Int (Array %s Bool))", k) }
-func mapValSort(k, v Sort) Sort { return fmt.Sprintf("(Array Int (Array %s %s))", k, v) }
+func mapDomSort(k Sort) Sort     { return fmt.Sprintf("(Array Int (Array %s Bool))", k) }
+func mapValSort(k, v Sort) Sort  { return fmt.Sprintf("(Array Int (Array %s %s))", k, v) }
 func globalArr(o *types.Var) string {
 	return "Glob_" + sanitize(o.Pkg().Name()) + "_" + o.Name()
 }
@@ -863,7 +884,7 @@ func (e *Env) applySpecFunc(sf *SpecFunc, args []TV, n ast.Node) TV {
 	if len(args) != len(sf.Params) {
 		e.fail(n, "spec func %s expects %d arguments", sf.Name, len(sf.Params))
 	}
-	se := &Env{vc: vc, pkg: sf.Pkg, vars: map[string]TV{}, heap: e.heap, old: e.old, depth: e.depth, tparams: e.tparams, facts: e.facts}
+	se := &Env{vc: vc, pkg: sf.Pkg, vars: map[string]TV{}, heap: e.heap, old: e.old, depth: e.depth, tparams: e.tparams, facts: e.facts, qfacts: e.qfacts}
 	for i, p := range sf.Params {
 		a := args[i]
 		// keep the caller's (more precise) Go type; the declared type only fixes nil literals and interface boxing
@@ -1383,6 +1404,9 @@ func lookupMethodAnyPkg(t types.Type, name string) types.Object {
 	return nil
 }
 
+// stripBinder removes the occurrences of one bound variable name (to see whether others remain).
+func stripBinder(f Term, vn string) Term { return strings.ReplaceAll(f, vn, "") }
+
 var quantCounter int
 
 func (e *Env) trQuant(kind string, x *ast.CallExpr) TV {
@@ -1398,8 +1422,44 @@ func (e *Env) trQuant(kind string, x *ast.CallExpr) TV {
 	quantCounter++
 	vn := fmt.Sprintf("%s_q%d", id.Name, quantCounter)
 	ce := e.child()
+	var qf []Term
+	ce.qfacts = &qf
 	ce.vars[id.Name] = TV{T: vn, S: st}
 	body := ce.trBool(x.Args[2])
+	if len(qf) > 0 {
+		// well-typedness facts about reads that depend on the bound variable: true for every value of the variable, so
+		// they are stated as separate quantified facts (hoisted to the enclosing level), never mixed into the body
+		seen := map[Term]bool{}
+		for _, f := range qf {
+			if seen[f] {
+				continue
+			}
+			seen[f] = true
+			pat := ""
+			if i := strings.Index(f, "\x00"); i >= 0 {
+				pat, f = f[:i], f[i+1:]
+			}
+			if strings.Contains(f, vn) {
+				if pat != "" && strings.Contains(pat, vn) && !strings.Contains(pat, "(ite ") {
+					f = fmt.Sprintf("(forall ((%s %s)) (! %s :pattern (%s)))", vn, st.Sort, f, pat)
+				} else {
+					f = fmt.Sprintf("(forall ((%s %s)) %s)", vn, st.Sort, f)
+				}
+			} else if pat != "" {
+				f = pat + "\x00" + f // keep the trigger for an enclosing binder
+			}
+			if boundVarRe.MatchString(stripBinder(f, vn)) {
+				if e.qfacts != nil {
+					*e.qfacts = append(*e.qfacts, f)
+				}
+			} else if e.facts != nil {
+				if i := strings.Index(f, "\x00"); i >= 0 {
+					f = f[i+1:]
+				}
+				*e.facts = append(*e.facts, f)
+			}
+		}
+	}
 	var pats []string
 	for _, p := range x.Args[3:] {
 		// a pattern argument may be a multi-pattern written as pat(a, b)
